@@ -519,6 +519,9 @@ func (p *Parser) parseData() (names []string, sequences map[string]string, nchar
 							sequence = sequence + lit3
 						case ENDOFLINE:
 							stopseq = true
+						case BEGIN, DATA, TAXA, TAXLABELS, TREES, TREE, DIMENSIONS, NTAX, NCHAR, FORMAT, DATATYPE, MISSING, GAP, MATCHCHAR, MATRIX, END:
+							// Residues that spell a keyword (GAP, DATA, END, ...) are residues here
+							sequence = sequence + lit3
 						default:
 							err = fmt.Errorf("expecting sequence after sequence identifier (%q) in Matrix block, got %q", lit2, lit3)
 							stopseq = true
